@@ -34,6 +34,7 @@ import (
 	"crypto/sha256"
 	"encoding/binary"
 	"fmt"
+	"hash/fnv"
 	"io"
 	"net"
 	"os"
@@ -1146,37 +1147,44 @@ func c13Scens(kmin, kmax, m int, reloadKinds []string, sym bool) []c13Scen {
 }
 
 // c13RunScens explores every scenario completely. The work is cut into items (scenario, first
-// `depth` picks) that are dealt out to the shards.
-func c13RunScens(t *testing.T, rec *vh.Rec, e *c13Env, scens []c13Scen, reduce bool, depth int) {
-	item, total := 0, 0
-	for _, sc := range scens {
+// depth(k) picks) that are dealt out to the shards by a hash (a running index would correlate with
+// the number of shards).
+func c13RunScens(t *testing.T, rec *vh.Rec, e *c13Env, scens []c13Scen, reduce bool, depth func(k int) int) {
+	total, items := 0, 0
+	for si, sc := range scens {
 		base := c13Case{Reqs: sc.reqs, Reloads: sc.reloads, Reduce: reduce, Sym: sc.sym}
 		w := len(sc.reqs) + 1
+		dp := depth(len(sc.reqs))
 		n := 1
-		for i := 0; i < depth; i++ {
+		for i := 0; i < dp; i++ {
 			n *= w
 		}
 		for x := 0; x < n; x++ {
-			item++
-			if !vh.Mine(item) {
+			h := fnv.New32a()
+			fmt.Fprintf(h, "%d/%d/%d", si, x, len(scens))
+			if !vh.Mine(int(h.Sum32() >> 4)) {
 				continue
 			}
-			fixed := make([]int, depth)
-			for i, y := 0, x; i < depth; i++ {
+			fixed := make([]int, dp)
+			for i, y := 0, x; i < dp; i++ {
 				fixed[i] = y % w
 				y /= w
 			}
-			total += c13Explore(t, rec, e, base, fixed)
+			if c := c13Explore(t, rec, e, base, fixed); c > 0 {
+				total += c
+				items++
+			}
 		}
 	}
 	rec.Extra("scenarios", len(scens))
 	rec.Extra("schedules", total)
+	rec.Extra("work_items", items)
 }
 
 // TestVerif_C13_exhaustive: literally every interleaving of the moves {start request, resume parked
 // request, start next reload} for small scenarios.
 func TestVerif_C13_exhaustive(t *testing.T) {
-	rec := vh.NewRec("C13", "exhaustive", "all interleavings of harness-owned moves (start a request; resume a request parked at entry/exit of an address selection; start the next reload) for every multiset of k requests over {dual,v4,v6} and every sequence of m reloads over {valid file with disjoint subnets, unreadable file, invalid file}; quick: k<=2,m=1; thorough: k<=2,m<=2, and k=3,m=1 over {valid,unreadable} where requests of the same kind are started in index order (they are interchangeable, so this loses nothing); non-trivial = a reload starts while a dual-stack request is parked between its two selections; distinct by (scenario, schedule)")
+	rec := vh.NewRec("C13", "exhaustive", "all interleavings of harness-owned moves (start a request; resume a request parked at entry/exit of an address selection; start the next reload) for every multiset of k requests over {dual,v4,v6} and every sequence of m reloads over {valid file with disjoint subnets, unreadable file, invalid file}; quick: k<=2,m=1; thorough: k<=2,m<=2, and k=3,m=1 over {valid,unreadable} (three dual-stack requests: valid only) where requests of the same kind are started in index order (they are interchangeable, so this loses nothing); non-trivial = a reload starts while a dual-stack request is parked between its two selections; distinct by (scenario, schedule)")
 	defer rec.Flush()
 	e := c13NewEnv(t)
 	if c13Replay(t, rec, e) {
@@ -1188,9 +1196,20 @@ func TestVerif_C13_exhaustive(t *testing.T) {
 	scens := c13Scens(1, 2, 1, all, false)
 	if vh.Thorough() {
 		scens = append(scens, c13Scens(1, 2, 2, all, false)...)
-		scens = append(scens, c13Scens(3, 3, 1, []string{"new", "missing"}, true)...)
+		for _, sc := range c13Scens(3, 3, 1, []string{"new", "missing"}, true) {
+			// three dual-stack requests: only with the reload that takes the lock (2 million schedules)
+			if sc.reqs[2] == "dual" && sc.reloads[0] != "new" {
+				continue
+			}
+			scens = append(scens, sc)
+		}
 	}
-	c13RunScens(t, rec, e, scens, false, 2)
+	c13RunScens(t, rec, e, scens, false, func(k int) int {
+		if k >= 3 {
+			return 5
+		}
+		return 2
+	})
 }
 
 // TestVerif_C13_reduced: larger scenarios, enumerated modulo the order of request moves while no
@@ -1220,7 +1239,7 @@ func TestVerif_C13_reduced(t *testing.T) {
 			}
 		}
 	}
-	c13RunScens(t, rec, e, scens, true, 1)
+	c13RunScens(t, rec, e, scens, true, func(k int) int { return k - 1 })
 }
 
 func c13Gen(rt *rapid.T) c13Case {
